@@ -83,6 +83,8 @@ pub struct Verdict {
     /// (source, destination, source port, destination port, payload length). Lets a scenario
     /// compare what a receiver would see with what it handed to the socket.
     pub udp_seen: Vec<(Addr, Addr, u16, u16, usize)>,
+    /// TTL / hop limit of the IP header this frame carries (6LoWPAN: as it decompresses)
+    pub hop: Option<u8>,
 }
 
 fn be16(b: &[u8], o: usize) -> usize {
@@ -376,6 +378,7 @@ impl Monitor {
 
     fn ipv4(&mut self, p: &[u8], ctx: &Ctx, out: &mut Out, v: &mut Verdict) {
         v.class.push_str("/ipv4");
+        v.hop = p.get(8).copied();
         if p.len() < 20 {
             out.add("length", "ipv4", "shorter-than-header", format!("IPv4 packet of {} octets", p.len()));
             return;
@@ -483,6 +486,7 @@ impl Monitor {
     #[allow(clippy::too_many_arguments)]
     fn ipv6(&mut self, p: &[u8], ctx: &Ctx, out: &mut Out, v: &mut Verdict, lowpan: bool, udp_cksum_elided: bool, have_src_rule: bool) {
         v.class.push_str("/ipv6");
+        v.hop = p.get(7).copied();
         if p.len() < 40 {
             out.add("length", "ipv6", "shorter-than-header", format!("IPv6 packet of {} octets", p.len()));
             return;
@@ -1276,6 +1280,7 @@ impl Monitor {
                     let src = v6(&d.packet[8..24]);
                     Self::source_basic(ctx, "ipv6", &src, &format!("6LoWPAN FRAG1 {}>{}", src, v6(&d.packet[24..40])), out);
                     let n = d.packet.len();
+                    v.hop = Some(d.packet[7]);
                     v.shape = format!("{}|iphc={:02x}{:02x}|nhc={}|len={}", v.class, p[4], p.get(5).copied().unwrap_or(0), d.nhc, len_class(n));
                     if n > size {
                         out.add("fragment", "6lowpan", "frag1-exceeds-datagram-size", format!("FRAG1 expands to {} octets but datagram_size is {}", n, size));
@@ -1352,6 +1357,7 @@ impl Monitor {
                     let mut v2 = Verdict { class: v.class.clone(), ..Default::default() };
                     self.ipv6(&d.packet, ctx, out, &mut v2, true, d.udp_cksum_elided, false);
                     v.udp_seen.append(&mut v2.udp_seen);
+                    v.hop = v2.hop;
                     v.class = v2.class;
                     v.shape = format!("{}|iphc={:02x}{:02x}|nhc={}", if v2.shape.is_empty() { v.class.clone() } else { v2.shape }, p[0], p[1], d.nhc);
                 }
